@@ -172,6 +172,16 @@ namespace sim
       std::uint32_t inflight_idx = 0;
       std::uint32_t root_sid = 0;
       const bool has_depth = true;  // every simulated main input is an input_with_depth
+      // multi-byte one<>/range<> rules of UTF-16/32 and the binary rules advance within the line whatever bytes
+      // the unit contains ("the line and column numbers are not counted correctly", Rule-Reference.md)
+      bool uncounted_units = false;
+      if( c.prog == 0 ) {
+         for( const NodeRow& row : c.g.n ) {
+            if( row.op == OP_ATOM && ( row.atom == ATOM_UTF16_LE_RANGE || row.atom == ATOM_UINT32_ONE ) ) {
+               uncounted_units = true;
+            }
+         }
+      }
       std::uint32_t last_discard_pos = 0;
       bool first_fault_seen = false;
 
@@ -482,7 +492,7 @@ namespace sim
                            }
                            std::uint32_t l, cc;
                            line_col( c.input, x.byte, l, cc );
-                           if( l != x.line || cc != x.col ) {
+                           if( ( l != x.line || cc != x.col ) && !uncounted_units ) {
                               cx.viol( "C05.where", head_name( re.rule ), i, "parse_error line/column " + std::to_string( x.line ) + ":" + std::to_string( x.col ) + " inconsistent with byte " + std::to_string( int( x.byte ) ) + " (expected " + std::to_string( l ) + ":" + std::to_string( cc ) + ")" );
                            }
                            const std::string ps = x.source + ":" + std::to_string( x.line ) + ":" + std::to_string( x.col );
